@@ -289,6 +289,52 @@ func ruleTabSmall(c *Ctx, r *R) {
 							return true
 						})
 						if !found {
+							// a parameter of a helper: what the callers pass (constants, or a value they compared with constants)
+							if fobj, ok := pinfo.Defs[fd.Name].(*types.Func); ok {
+								pidx := -1
+								k := 0
+								for _, fl := range fd.Type.Params.List {
+									for _, nm := range fl.Names {
+										if pinfo.Defs[nm] == obj {
+											pidx = k
+										}
+										k++
+									}
+								}
+								if pidx >= 0 {
+									calls := 0
+									allOK := true
+									for _, f2 := range pp.Syntax {
+										ast.Inspect(f2, func(x ast.Node) bool {
+											ce, ok := x.(*ast.CallExpr)
+											if !ok || pidx >= len(ce.Args) {
+												return true
+											}
+											var callee types.Object
+											switch fx := unparen(ce.Fun).(type) {
+											case *ast.Ident:
+												callee = pinfo.Uses[fx]
+											case *ast.SelectorExpr:
+												callee = pinfo.Uses[fx.Sel]
+											}
+											if callee != fobj {
+												return true
+											}
+											calls++
+											arg := ce.Args[pidx]
+											if tv := pinfo.Types[arg]; tv.Value != nil && tv.Value.Kind() == constant.String {
+												kinds[constant.StringVal(tv.Value)] = arg.Pos()
+											} else if cfd := c.EnclosingFuncDecl(ce); cfd == nil || !collectComparedStrings(pinfo, cfd, arg, kinds) {
+												allOK = false
+											}
+											return true
+										})
+									}
+									found = calls > 0 && allOK
+								}
+							}
+						}
+						if !found {
 							r.undecided("writer:Property.Kind", c.Pos(cl.Pos()), "kind comes from a non-constant")
 						}
 					} else {
